@@ -37,3 +37,8 @@ func VerifC11_BlueGreenCloneSetFinalize() {
 	verifrt.Cover("finalize-done")
 	verifrt.Assert(cs.Status.ReadyReplicas == cs.Status.UpdatedReadyReplicas, "C11.bgcloneset.finalize.doneOnlyIfAllUpdatedAndReady")
 }
+
+// C11: "ready" is judged against the number of pods the step really calls for (percentages rounded up, as
+// UpgradeBatch and the CloneSet controller round them): the readiness target of the batch context equals that number
+// (the obligations of VerifC01_BlueGreenCloneSetBatch, C01.bgcloneset.desired.equalsStepValue).
+func VerifC11_BlueGreenCloneSetReadinessTarget() { VerifC01_BlueGreenCloneSetBatch() }
